@@ -77,7 +77,7 @@ def main():
             na.append({"property_id": pid, "reason": "check not built yet (work in progress; planned in DESIGN.md section 5)"})
     m = {
         "version": 1,
-        "setup_cmd": "python3 driver/build.py O2 && python3 driver/build.py O0 && python3 driver/build.py asan && python3 driver/build.py fn",
+        "setup_cmd": "python3 driver/build.py O2 && python3 driver/build.py O0 && python3 driver/build.py asan && python3 driver/build.py fn && python3 driver/build.py mem",
         "hooks": {"guard": "MYTH_VERIF",
                   "enable": "checks compile /repo/src/*.c themselves with -DMYTH_VERIF (driver/build.py) and link the simulator runtime /verif/sim",
                   "baseline_off_cmd": "cd /repo && make -j8 >/dev/null 2>&1 && make -j8 check",
